@@ -262,7 +262,7 @@ fn run_burst(b: &Burst, k: u64) -> Result<BurstObs, String> {
     let fault = vm_text(&b.kind.vm_expr(7));
     let dive = format!("(define (%dive n) (if (= n 0) {} (+ 1 (%dive (- n 1)))))", fault);
     let o = sim.eval_form(&dive);
-    let compile_time = matches!(b.kind, FaultKind::CompileSyntax | FaultKind::ReadSyntax);
+    let compile_time = matches!(b.kind, FaultKind::CompileSyntax | FaultKind::ReadSyntax | FaultKind::MacroSyntax);
     if !compile_time && !matches!(o.outcome, Outcome::Value(_)) {
         return Err(format!("set-up failed: {}", o.outcome.brief()));
     }
@@ -282,7 +282,16 @@ fn run_burst(b: &Burst, k: u64) -> Result<BurstObs, String> {
             bad_sp += 1;
         }
     }
-    let later = sim.eval_form("(list 'after (%probe (list 41)))");
+    // a later form that uses every derived form of the prelude, procedures, promises and templates
+    let later = sim.eval_form(
+        "(list 'after (%probe (list 41)) \
+           (let ((a 1)) (let* ((b a)) (letrec ((c (lambda () b))) \
+             (cond ((= a 2) 'no) (else (case b ((1) (when #t (unless #f (and a (or #f (c)))))) (else 'no))))))) \
+           (let loop ((i 0)) (if (< i 3) (loop (+ i 1)) i)) \
+           `(q ,(force (delay 5)) . ,(apply + '(1 2))) \
+           (map (lambda (x) (* x x)) '(1 2 3)) \
+           (call/cc (lambda (k) (for-each (lambda (x) (if (> x 1) (k x))) '(1 2 3)) 'none)))",
+    );
     let probe = sim.eval_form("(%probe-deep 2 5)");
     let stack_capacity = sim.vm.verif_stack().len();
     sim.vm.verif_collect();
